@@ -45,7 +45,7 @@ def task_names(tier):
     for ver in ('2.0', '3.0'):
         for k in kinds_for(ver):
             names.append('roundtrip/%s/%s' % (ver, k))
-    names += ['composite', 'grid/2.0', 'grid/3.0']
+    names += ['composite', 'grid/2.0', 'grid/3.0', 'zone/name', 'zone/roundtrip']
     return names
 
 
@@ -57,6 +57,13 @@ def kinds_for(ver):
 
 
 def _run_task(name, tier):
+    if name.startswith('zone/'):
+        # a date-time keeps its zone: the name written is the value's own zone whenever it is a mapped zone that has the value's offset at that
+        # instant (repeated hours included), and the reader gives that zone back - the zone tasks of C17 are obligations of this property
+        from props import C17
+        r = C17.run_task(name.split('/', 1)[1], tier)
+        r['task'] = name
+        return r
     T = Task(name)
     parts = name.split('/')
     globals()['t_' + parts[0]](T, tier, *parts[1:])
